@@ -298,6 +298,7 @@ const RT = {
     const out = new SNum('i', this.def('Int', r.t), r.lo, r.hi, r.tz || 0);
     if (r.bf) out.bf = r.bf;
     if (r.m32) out.m32 = r.m32;
+    if (r.bv32) out.bv32 = r.bv32;
     return out;
   },
 
@@ -306,7 +307,7 @@ const RT = {
   toInt32(a) {
     if (a.lo >= -P31 && a.hi < P31) return a;
     const m = a.m32 || a.t;
-    return { t: '(w32 ' + m + ')', lo: -P31, hi: P31 - 1n, tz: Math.min(a.tz || 0, 32), m32: m };
+    return { t: '(w32 ' + m + ')', lo: -P31, hi: P31 - 1n, tz: Math.min(a.tz || 0, 32), m32: m, bv32: a.bv32 };
   },
   // bits [sh, sh+len) of a value whose 32-bit pattern is a bit-field of a 64-bit input (tracked in .bf)
   fieldView(bf, sh, len) {
@@ -323,9 +324,9 @@ const RT = {
   toUint32(a) {
     if (a.bf && !a.bf.exact) return this.fieldView(a.bf, 0, 32);
     if (a.lo >= 0n && a.hi < P32) return a;
-    if (a.lo >= -P32 && a.hi < 0n && !a.m32) return { t: '(+ ' + a.t + ' 4294967296)', lo: a.lo + P32, hi: a.hi + P32, tz: Math.min(a.tz || 0, 32), m32: a.t };
+    if (a.lo >= -P32 && a.hi < 0n && !a.m32) return { t: '(+ ' + a.t + ' 4294967296)', lo: a.lo + P32, hi: a.hi + P32, tz: Math.min(a.tz || 0, 32), m32: a.t, bv32: a.bv32 };
     const m = a.m32 || a.t;
-    return { t: '(u32 ' + m + ')', lo: 0n, hi: P32 - 1n, tz: Math.min(a.tz || 0, 32), m32: m };
+    return { t: '(u32 ' + m + ')', lo: 0n, hi: P32 - 1n, tz: Math.min(a.tz || 0, 32), m32: m, bv32: a.bv32 };
   },
   bvOp(op, a, b) { // a, b int32 views
     const A = '((_ int2bv 32) ' + (a.m32 || a.t) + ')', Bt = '((_ int2bv 32) ' + (b.m32 || b.t) + ')';
@@ -1017,10 +1018,11 @@ const RT = {
     const big_ = '(or (fp.isNaN ' + ft + ') (fp.isInfinite ' + ft + ') (fp.geq (fp.abs ' + ft + ') ' + fpLit(9223372036854775808) + '))';
     if (this.solver.check([this.nameBool('(and (not (or (fp.isNaN ' + ft + ') (fp.isInfinite ' + ft + '))) (fp.geq (fp.abs ' + ft + ') ' + fpLit(9223372036854775808) + '))')]) !== 'unsat')
       return unsupported('ToInt32 of a double that may exceed 2^63');
-    const bv = '((_ fp.to_sbv 64) RTZ ' + ft + ')';
-    const iv = '(let ((u (bv2int ' + bv + '))) (ite (>= u 9223372036854775808) (- u 18446744073709551616) u))';
-    const t = this.def('Int', '(ite ' + big_ + ' 0 (w32 ' + iv + '))');
-    return { t, lo: -P31, hi: P31 - 1n, tz: 0 };
+    // the 32-bit pattern is kept as a bit-vector term as well (.bv32): 32-bit coercions preserve it, and a 64-bit output made of two such words
+    // can be compared with a reference inside the FP/BV theories, without the slow Int<->BitVec bridge
+    const bv32 = this.def('(_ BitVec 32)', '(ite ' + big_ + ' #x00000000 ((_ extract 31 0) ((_ fp.to_sbv 64) RTZ ' + ft + ')))');
+    const t = this.def('Int', '(s32of (bv2int ' + bv32 + '))');
+    return { t, lo: -P31, hi: P31 - 1n, tz: 0, bv32 };
   },
   fround(v) {
     if (!isSym(v)) return Math.fround(v);
@@ -1291,7 +1293,7 @@ ShimMath.floor = v => { if (v instanceof RandomValue) { if (v.n === undefined) r
 // ---------------------------------------------------------------- one path = one execution of the program
 function serialise(v, depth) {
   depth = depth || 0;
-  if (v instanceof SNum) return v.k === 'i' ? { i: v.t, lo: String(v.lo), hi: String(v.hi), nan: v.nan || undefined } : { f: v.t };
+  if (v instanceof SNum) return v.k === 'i' ? { i: v.t, lo: String(v.lo), hi: String(v.hi), nan: v.nan || undefined, bv32: v.bv32 } : { f: v.t };
   if (v instanceof SBool) return { b: v.t };
   if (v instanceof SStr) return { s: v.chars.map(c => typeof c === 'number' ? c : (c instanceof NumSeg ? '#num' : c.t)) };
   if (v instanceof Quot) return { quot: [v.n.t, v.d.t] };
